@@ -53,6 +53,7 @@ type HistRun struct {
 	ctx   context.Context
 	ctrl  ledgercontroller.Controller
 	HTTPDiff []string
+	V1    bool     // with API: writes are v1 requests
 	API   *httpAPI // non-nil: operations and reads go through the v2 HTTP API (TIE-H, httpop.go)
 }
 
@@ -110,7 +111,13 @@ func newHistRunHTTP(f Feat, fs features.FeatureSet) *HistRun {
 }
 
 func (hr *HistRun) stepHTTP(o Op) OpResult {
-	res := hr.API.runOp("l1", o)
+	var res OpResult
+	if hr.V1 {
+		o = v1Normalise(o)
+		res = hr.API.runOpV1("l1", o)
+	} else {
+		res = hr.API.runOp("l1", o)
+	}
 	hr.Ops = append(hr.Ops, o)
 	hr.Res = append(hr.Res, res)
 	if res.Panic == "" {
@@ -206,12 +213,14 @@ func cmdHist(args []string) int {
 	}
 	mon := monitorsFor(f.Extra["monitors"])
 	via, viaKind := f.Extra["via"], f.Extra["monitors"]
-	if via == "http" {
+	if via == "http" || via == "http1" {
 		mon = nil // the controller-level monitors read Go values an HTTP answer does not carry; TIE-H has its own (stepHTTP)
 	}
 	open := func(feat Feat) *HistRun {
-		if via == "http" {
-			return newHistRunHTTP(feat, feat.set())
+		if via == "http" || via == "http1" {
+			hr := newHistRunHTTP(feat, feat.set())
+			hr.V1 = via == "http1"
+			return hr
 		}
 		return newHistRun(feat, false)
 	}
@@ -220,6 +229,9 @@ func cmdHist(args []string) int {
 		cs := histCaseSx(feat, ops)
 		if hr.API != nil {
 			cs = "(histh" + strings.TrimPrefix(cs, "(hist")
+			if hr.V1 {
+				cs = "(histh1" + strings.TrimPrefix(cs, "(histh")
+			}
 		}
 		out.Case(cs, hr.traceSx())
 		out.Stats["cases"]++
